@@ -110,6 +110,9 @@ fn upper_sum(lhs: f64, rhs: f64) -> f64 {
 #[derive(Debug, Clone)]
 pub(crate) struct BoundsAnalyzer {
     variable_bounds: IndexMap<String, Bounds>,
+    // a Boolean domain cannot carry a tightened range, so nothing in the
+    // compiled model would enforce one: these variables keep [0, 1]
+    boolean_variables: IndexSet<String>,
     tolerance: f64,
     reached_iteration_limit: bool,
     // a contradiction proves the model infeasible, which is a solver
@@ -122,6 +125,7 @@ impl Default for BoundsAnalyzer {
     fn default() -> Self {
         Self {
             variable_bounds: IndexMap::new(),
+            boolean_variables: IndexSet::new(),
             tolerance: DEFAULT_TOLERANCE,
             reached_iteration_limit: false,
             detected_infeasible: false,
@@ -260,6 +264,11 @@ impl BoundsAnalyzer {
                     )
                 })
                 .collect(),
+            boolean_variables: domain
+                .iter()
+                .filter(|(_, variable)| matches!(variable.get_type(), VariableType::Boolean))
+                .map(|(name, _)| name.clone())
+                .collect(),
             ..Self::default()
         }
     }
@@ -378,6 +387,9 @@ impl BoundsAnalyzer {
     }
 
     pub(crate) fn insert_variable(&mut self, name: String, variable_type: &VariableType) {
+        if matches!(variable_type, VariableType::Boolean) {
+            self.boolean_variables.insert(name.clone());
+        }
         self.variable_bounds
             .insert(name, Bounds::from_variable_type(variable_type));
     }
@@ -628,6 +640,9 @@ impl BoundsAnalyzer {
     }
 
     fn tighten_variable(&mut self, name: &str, candidate: Bounds) -> bool {
+        if self.boolean_variables.contains(name) {
+            return false;
+        }
         let current = self
             .variable_bounds
             .get(name)
